@@ -160,101 +160,197 @@ func (c *Ctx) ruleStrongestWins() {
 			r.Bad(rule, ir.FuncKey(sfn), "compares receiver.ErrorHandling > other.ErrorHandling", c.P.Pos(sfn.Pos()), "Stronger no longer compares the receiver's class strictly greater than the argument's")
 		}
 	}
-	for _, p := range c.P.Pkgs {
-		info := p.TypesInfo
-		for _, file := range p.Syntax {
-			for _, d := range file.Decls {
-				fd, ok := d.(*ast.FuncDecl)
-				if !ok || fd.Body == nil {
+	sfn := c.P.SSA.FuncValue(stronger)
+	// On the SSA form, so that naming the asserted error in a local, or asserting it once instead of at every
+	// use, changes nothing: the value written to the accumulator and the receiver of the guarding Stronger call
+	// must be the same object once interface conversions and type assertions are stripped.
+	root := func(v ssa.Value) ssa.Value {
+		for {
+			switch x := v.(type) {
+			case *ssa.MakeInterface:
+				v = x.X
+			case *ssa.ChangeInterface:
+				v = x.X
+			case *ssa.ChangeType:
+				v = x.X
+			case *ssa.TypeAssert:
+				v = x.X
+			case *ssa.Extract:
+				if ta, ok := x.Tuple.(*ssa.TypeAssert); ok && x.Index == 0 {
+					v = ta.X
+				} else {
+					return v
+				}
+			default:
+				return v
+			}
+		}
+	}
+	for _, fn := range c.P.Funcs {
+		if !c.P.InModule(fn) || fn.Blocks == nil || fn == sfn {
+			continue
+		}
+		var calls []*ssa.Call
+		for _, b := range fn.Blocks {
+			for _, in := range b.Instrs {
+				if call, ok := in.(*ssa.Call); ok && call.Call.StaticCallee() == sfn && len(call.Call.Args) == 2 {
+					calls = append(calls, call)
+				}
+			}
+		}
+		if len(calls) == 0 {
+			continue
+		}
+		fk := ir.FuncKey(fn)
+		// the accumulator: a phi web (register variable) or an Alloc cell (captured / address taken)
+		web := map[ssa.Value]bool{}
+		var cells []*ssa.Alloc
+		var grow func(v ssa.Value)
+		grow = func(v ssa.Value) {
+			v = root(v)
+			if web[v] {
+				return
+			}
+			switch x := v.(type) {
+			case *ssa.Phi:
+				web[x] = true
+				for _, e := range x.Edges {
+					if _, isPhi := root(e).(*ssa.Phi); isPhi {
+						grow(e)
+					}
+				}
+				if x.Referrers() != nil {
+					for _, ref := range *x.Referrers() {
+						if ph, ok := ref.(*ssa.Phi); ok {
+							grow(ph)
+						}
+					}
+				}
+			case *ssa.UnOp:
+				if al, ok := x.X.(*ssa.Alloc); ok && x.Op == token.MUL {
+					for _, cl := range cells {
+						if cl == al {
+							return
+						}
+					}
+					cells = append(cells, al)
+				}
+			}
+		}
+		for _, call := range calls {
+			grow(call.Call.Args[1])
+		}
+		// the variable the candidates are assigned to: phis that merge a Stronger receiver (same interface type)
+		for _, call := range calls {
+			rv := root(call.Call.Args[0])
+			for _, b := range fn.Blocks {
+				for _, in := range b.Instrs {
+					ph, ok := in.(*ssa.Phi)
+					if !ok || !types.Identical(ph.Type(), call.Call.Args[1].Type()) {
+						continue
+					}
+					for _, e := range ph.Edges {
+						if root(e) == rv {
+							grow(ph)
+						}
+					}
+				}
+			}
+		}
+		// what the accumulator may hold: a web phi, the initial nil, or a value some web phi merges in
+		feeds := map[ssa.Value]bool{}
+		for v := range web {
+			for _, e := range v.(*ssa.Phi).Edges {
+				feeds[root(e)] = true
+			}
+		}
+		isAcc := func(v ssa.Value) bool {
+			v = root(v)
+			if web[v] {
+				return true
+			}
+			if k, ok := v.(*ssa.Const); ok && k.Value == nil {
+				return true
+			}
+			if u, ok := v.(*ssa.UnOp); ok && u.Op == token.MUL {
+				for _, cl := range cells {
+					if u.X == ssa.Value(cl) {
+						return true
+					}
+				}
+			}
+			return false
+		}
+		// guarded(v, at): some Stronger(recv, acc) with root(recv) == root(v) whose true edge dominates `at`
+		guarded := func(v ssa.Value, at *ssa.BasicBlock) bool {
+			rv := root(v)
+			for _, call := range calls {
+				if root(call.Call.Args[0]) != rv || !(isAcc(call.Call.Args[1]) || feeds[root(call.Call.Args[1])]) || call.Referrers() == nil {
 					continue
 				}
-				// accumulators: variables passed to Stronger
-				acc := map[*types.Var]bool{}
-				ast.Inspect(fd.Body, func(n ast.Node) bool {
-					call, ok := n.(*ast.CallExpr)
-					if !ok || len(call.Args) != 1 {
+				for _, ref := range *call.Referrers() {
+					iff, ok := ref.(*ssa.If)
+					if !ok || iff.Cond != ssa.Value(call) {
+						continue
+					}
+					t := iff.Block().Succs[0]
+					if len(t.Preds) == 1 && (t == at || t.Dominates(at)) {
 						return true
 					}
-					sel, ok := call.Fun.(*ast.SelectorExpr)
-					if !ok || info.Uses[sel.Sel] != types.Object(stronger) {
-						return true
-					}
-					if id, ok := call.Args[0].(*ast.Ident); ok {
-						if v, ok := info.Uses[id].(*types.Var); ok {
-							acc[v] = true
-						}
-					}
-					return true
-				})
-				if len(acc) == 0 {
+				}
+			}
+			return false
+		}
+		n := 0
+		check := func(v ssa.Value, at *ssa.BasicBlock, pos ssa.Instruction) {
+			if k, ok := root(v).(*ssa.Const); ok && k.Value == nil {
+				return // initial nil
+			}
+			if web[root(v)] {
+				return
+			}
+			n++
+			cons := fmt.Sprintf("strongest error assigned #%d", n)
+			where := c.P.Pos(fn.Pos())
+			if pos != nil {
+				where = c.P.InstrPos(pos)
+			} else if in, ok := root(v).(ssa.Instruction); ok && in.Pos().IsValid() {
+				where = c.P.InstrPos(in)
+			}
+			if guarded(v, at) {
+				r.Ok(rule, fk, cons, where, "guarded by candidate.Stronger(accumulator)")
+			} else {
+				r.Bad(rule, fk, cons, where, "the accumulated strongest error is overwritten without testing that the new error is stronger: a weaker error arriving later downgrades the reaction")
+			}
+		}
+		var phis []*ssa.Phi
+		for v := range web {
+			phis = append(phis, v.(*ssa.Phi))
+		}
+		sort.Slice(phis, func(i, j int) bool {
+			if phis[i].Block().Index != phis[j].Block().Index {
+				return phis[i].Block().Index < phis[j].Block().Index
+			}
+			return phis[i].Pos() < phis[j].Pos()
+		})
+		seenVal := map[ssa.Value]bool{}
+		for _, ph := range phis {
+			for i, e := range ph.Edges {
+				if seenVal[root(e)] {
 					continue
 				}
-				// local aliases: x := y.(*T) / x := y
-				alias := map[types.Object]types.Object{}
-				ast.Inspect(fd.Body, func(n ast.Node) bool {
-					as, ok := n.(*ast.AssignStmt)
-					if !ok || as.Tok != token.DEFINE || len(as.Lhs) != 1 || len(as.Rhs) != 1 {
-						return true
-					}
-					if id, ok := as.Lhs[0].(*ast.Ident); ok {
-						if src := rootIdentObj(info, as.Rhs[0]); src != nil && info.Defs[id] != nil {
-							if _, isCall := as.Rhs[0].(*ast.CallExpr); !isCall {
-								alias[info.Defs[id]] = src
-							}
-						}
-					}
-					return true
-				})
-				canon = func(o types.Object) types.Object {
-					for i := 0; i < 5 && o != nil; i++ {
-						n, ok := alias[o]
-						if !ok {
-							break
-						}
-						o = n
-					}
-					return o
+				seenVal[root(e)] = true
+				check(e, ph.Block().Preds[i], nil)
+			}
+		}
+		for _, cl := range cells {
+			if cl.Referrers() == nil {
+				continue
+			}
+			for _, ref := range *cl.Referrers() {
+				if st, ok := ref.(*ssa.Store); ok && st.Addr == ssa.Value(cl) {
+					check(st.Val, st.Block(), st)
 				}
-				fname := fd.Name.Name
-				if fd.Recv != nil && len(fd.Recv.List) > 0 {
-					fname = "(" + types.ExprString(fd.Recv.List[0].Type) + ")." + fname
-				}
-				fk := ir.Short(p.PkgPath) + "." + fname
-				n := 0
-				var stack []ast.Node
-				ast.Inspect(fd.Body, func(nd ast.Node) bool {
-					if nd == nil {
-						stack = stack[:len(stack)-1]
-						return true
-					}
-					stack = append(stack, nd)
-					as, ok := nd.(*ast.AssignStmt)
-					if !ok {
-						return true
-					}
-					for i, lhs := range as.Lhs {
-						id, ok := lhs.(*ast.Ident)
-						if !ok {
-							continue
-						}
-						v, _ := info.Uses[id].(*types.Var)
-						if v == nil {
-							v, _ = info.Defs[id].(*types.Var)
-						}
-						if v == nil || !acc[v] || i >= len(as.Rhs) {
-							continue
-						}
-						n++
-						cand := canon(rootIdentObj(info, as.Rhs[i]))
-						cons := fmt.Sprintf("%s = %s #%d", id.Name, types.ExprString(as.Rhs[i]), n)
-						if guardedByStronger(info, stack, as, stronger, v, cand) {
-							r.Ok(rule, fk, cons, c.P.Pos(as.Pos()), "guarded by candidate.Stronger("+id.Name+")")
-						} else {
-							r.Bad(rule, fk, cons, c.P.Pos(as.Pos()), "the accumulated strongest error is overwritten without testing that the new error is stronger: a weaker error arriving later downgrades the reaction")
-						}
-					}
-					return true
-				})
 			}
 		}
 	}
